@@ -16,7 +16,8 @@ func init() {
 		Explanation: "Narrow - necessary conditions only: (R1) the scan-response decoder pairs cells_per_result[i] with partial_flag_per_result[i] under a guard that both arrays have the same length, stores result i at index i, and advances the cellblock cursor by what each nested decode returned (bounds and cursor discharged by the C11 engine); " +
 			"(R2) without AllowPartialResults, Next returns a result with a nil error only on the edge where the assembled result is not partial, or after the stream ended (io.EOF) with a row assembled; " +
 			"(R3) scanner.request builds the opening request from the scanner's current start row, the scan's stop row and its options, the continuation request from the current region-scanner id, and returns the region of the very call it sent; " +
-			"(R4) scanner.update derives the next start row from the region it was given (forward: its stop key; reversed: from its start key) only on the edge where the server reported no more results in that region.",
+			"(R4) scanner.update derives the next start row from the region it was given (forward: its stop key; reversed: from its start key) only on the edge where the server reported no more results in that region." +
+			" Added after the seeded-change rounds: (R2) every verdict of isDone is reached through the test of the response's more_results flag; update opens a region scanner only when the response carries a scanner id; the byte slices returned by the RegionInfo getters are never written through.",
 		Residue:   "everything value-level: which rows are returned, their order, exactly-once, for every chunking of the stream and every region layout; the reversed-scan 'closest row before' approximation",
 		Technique: "index/cursor obligations from the bounds engine, dominance on the SSA CFG, value provenance",
 		Run:       runC06,
